@@ -13,7 +13,7 @@ def store(root="/tmp/seed3", offset=2, rnd=3):
         for k in (1, 2, 3):
             src = f"{root}/{P}/_seed/{k}"
             rf = f"/tmp/sv2/result_{P}_{k}.json"
-            if not os.path.exists(rf):
+            if not os.path.exists(rf) or not os.path.exists(os.path.join(src, "patch.diff")):
                 continue
             res = json.load(open(rf))
             ok = res.get("demo_clean_exit") == 0 and res.get("patch_applies") == 0 and res.get("demo_patched_exit") not in (0, None) and res.get("baseline_tests_lost") == "0"
